@@ -65,6 +65,7 @@ const STAGES: &[(&str, StageFn)] = &[
     ("c07.configs", c07::configs),
     ("c07.contention", c07::contention),
     ("c07.seams", c07::seams),
+    ("c07.fdlimit", c07::fdlimit),
     ("c07.cli", c07::cli),
     ("c08.lib", c08::lib),
     ("c08.cli", c08::cli),
